@@ -571,6 +571,15 @@ func Build(L Layout, base [][]Item, rev2page1 []Item, rev3page []Item) ([]byte, 
 type Placed struct {
 	X, Y, Size int
 	Text       string
+	// fractional geometry (used instead of X / Y / Size when non-zero)
+	Xf, Yf, Sizef float64
+}
+
+func num(i int, f float64) string {
+	if f != 0 {
+		return strings.TrimRight(strings.TrimRight(fmt.Sprintf("%.3f", f), "0"), ".")
+	}
+	return fmt.Sprint(i)
 }
 
 // BuildSimple renders pages of positioned Helvetica/WinAnsi text, one Tj per
@@ -591,7 +600,7 @@ func BuildSimpleWidths(pages [][]Placed, width, height, w int) ([]byte, error) {
 		var b strings.Builder
 		b.WriteString("BT\n")
 		for _, p := range pg {
-			fmt.Fprintf(&b, "/F1 %d Tf 1 0 0 1 %d %d Tm %s Tj\n", p.Size, p.X, p.Y, pdfw.Render(pdfw.Str([]byte(p.Text))))
+			fmt.Fprintf(&b, "/F1 %s Tf 1 0 0 1 %s %s Tm %s Tj\n", num(p.Size, p.Sizef), num(p.X, p.Xf), num(p.Y, p.Yf), pdfw.Render(pdfw.Str([]byte(p.Text))))
 		}
 		b.WriteString("ET\n")
 		items = append(items, pdfw.Item{Num: n, Val: pdfw.Dict{{"Type", pdfw.Name("Page")}, {"Parent", pdfw.Ref{Num: 2}},
